@@ -1,6 +1,6 @@
 (* C03 — Leftmost-longest search picks the leftmost start, then the longest pattern there. *)
 From DV Require Import Model.Base Model.Nfa Model.BwBuild Model.BwSearch Model.Utf8 Model.CwBuild Model.Api Model.Spec
-     Model.Cert Proofs.Leftmost Proofs.BwLeftmost Proofs.Utf8Props Proofs.CwCert Proofs.CwLeftmost.
+     Model.Cert Proofs.Leftmost Proofs.BwLeftmost Proofs.Utf8Props Proofs.CwCert Proofs.CwLeftmost Proofs.TrieInv Proofs.BuildTrie Proofs.BuildCertLm Proofs.BuiltAutomata.
 Local Open Scope N_scope.
 
 (* For every byte-wise automaton of a leftmost kind that passes the leftmost certificate checker
@@ -72,3 +72,41 @@ Example c03_cw_hypotheses_met :
   | _ => False
   end.
 Proof. vm_compute. split; reflexivity. Qed.
+
+(* THE BUILDER THEOREM for the leftmost kinds (Proofs/NfaFailsLm.v, BuildCertLm.v): every automaton
+   construction returns under leftmost-longest / leftmost-first semantics passes the leftmost
+   certificate for the registered patterns -- the breadth-first pass of build_fails_leftmost sets the
+   fail link of a node to DEAD exactly when the textbook link would drop the start of the leftmost
+   pattern occurrence inside the node, and the output position to the pattern starting there; the
+   double-array layout is the kind-independent refinement of DaRefine / CwDaRefine. *)
+Theorem leftmost_built_automata_are_certified :
+  forall (V : Type) (veqb : V -> V -> bool), (forall v, veqb v v = true) ->
+  forall k nfb (pvs : list (list N * V)), k <> Standard -> 4 * total_len V pvs <= U32_MAX - 1 ->
+    (forall (A : bw_automaton V), (forall p v, In (p, v) pvs -> Forall (fun b => b < 256) p) ->
+       bw_build_with_values V k nfb pvs = Ok A -> bw_lm_cert_ok veqb A (regd V k pvs) = true)
+    /\ (forall (A : cw_automaton V), cw_build_with_values V k nfb pvs = Ok A -> cw_lm_cert_ok veqb A (regd V k pvs) = true).
+Proof.
+  intros V veqb Hr k nfb pvs Hk Hs. split.
+  - intros A Hb HA. exact (bw_build_lm_cert_lemma V veqb Hr k nfb pvs A Hk Hb Hs HA).
+  - intros A HA. exact (cw_build_lm_cert_lemma V veqb Hr k nfb pvs A Hk Hs HA).
+Qed.
+Print Assumptions leftmost_built_automata_are_certified.
+
+(* C03 with no certificate hypothesis, both variants *)
+Theorem bw_lml_correct_for_every_built_automaton :
+  forall (V : Type) (veqb : V -> V -> bool), (forall a b, veqb a b = true <-> a = b) ->
+  forall nfb (pvs : list (list N * V)) (A : bw_automaton V),
+    (forall p v, In (p, v) pvs -> Forall (fun b => b < 256) p) -> 4 * total_len V pvs <= U32_MAX - 1 ->
+    bw_build_with_values V LeftmostLongest nfb pvs = Ok A ->
+  forall h, Forall (fun b => b < 256) h -> bw_leftmost_find_iter V A h = Ok (spec_lml V pvs h).
+Proof. exact bw_built_lml. Qed.
+Print Assumptions bw_lml_correct_for_every_built_automaton.
+
+Theorem cw_lml_correct_for_every_built_automaton :
+  forall (V : Type) (veqb : V -> V -> bool), (forall a b, veqb a b = true <-> a = b) ->
+  forall nfb (pvs : list (list N * V)) (A : cw_automaton V),
+    4 * total_len V pvs <= U32_MAX - 1 ->
+    cw_build_with_values V LeftmostLongest nfb pvs = Ok A ->
+  forall cs, Forall scalar cs -> cw_leftmost_find_iter V A (encode_utf8 cs) = Ok (map (to_bytes V cs) (spec_lml V pvs cs)).
+Proof. exact cw_built_lml. Qed.
+Print Assumptions cw_lml_correct_for_every_built_automaton.
